@@ -13,7 +13,9 @@
  *
  * Scenarios: 0 mixed; 1 write-heavy + memtable readers (skiplist);
  * 2 snapshots/iterators; 3 compaction/backup/property; 4 tiny block cache and
- * few open files (table-cache eviction, reads of files being retired).
+ * few open files (table-cache eviction, reads of files being retired);
+ * 5 TWO handles (two databases) in one process, half of the threads on each: whatever the library
+ * keeps in storage of static duration is shared between them (Snappy always on in this scenario).
  *
  * Built with -fsanitize=thread (and address): the sanitizer is the oracle.
  * Exit 0 = workload finished; 3 = a read returned bytes that were never written.
@@ -66,13 +68,14 @@ static int valok(const ldb_slice_t *key, const ldb_slice_t *val) {
   return 1;
 }
 
-static const int MIX[5][10] = {
+static const int MIX[6][10] = {
   /* put del batch get iter snap compact prop sizes backup */
   { 30, 6, 8, 30, 8, 6, 2, 4, 4, 2 },
   { 45, 8, 12, 30, 3, 1, 0, 1, 0, 0 },
   { 20, 4, 6, 20, 25, 20, 1, 2, 2, 0 },
   { 30, 5, 8, 15, 5, 3, 10, 10, 8, 6 },
   { 25, 5, 6, 45, 12, 3, 2, 1, 1, 0 },
+  { 45, 6, 10, 20, 5, 3, 3, 2, 2, 0 },       /* 5: two handles, write-heavy (flushes and compactions on both) */
 };
 
 static void *worker(void *arg) {
@@ -198,11 +201,11 @@ int main(int argc, char **argv) {
   char path[1100]; pthread_t th[MAXT]; worker_t ws[MAXT];
   ldb_dbopt_t opt = *ldb_dbopt_default;
   ldb_lru_t *cache = NULL;
-  ldb_t *db; int rc, i, nthreads, nops, scenario; uint64_t seed;
+  ldb_t *db, *db2 = NULL; int rc, i, nthreads, nops, scenario; uint64_t seed;
   long g = 0, h = 0, wr = 0, it = 0, st = 0, sn = 0, cp = 0, pr = 0, bk = 0, bad = 0, rows = 0;
   char *v = NULL; int l0 = -1;
   if (argc < 6) { fprintf(stderr, "usage: k10 dir seed scenario nthreads nops\n"); return 2; }
-  seed = strtoull(argv[2], 0, 10); scenario = atoi(argv[3]) % 5; nthreads = atoi(argv[4]); nops = atoi(argv[5]);
+  seed = strtoull(argv[2], 0, 10); scenario = atoi(argv[3]) % 6; nthreads = atoi(argv[4]); nops = atoi(argv[5]);
   if (nthreads < 1) nthreads = 1; if (nthreads > MAXT) nthreads = MAXT;
   sprintf(path, "%s/db", argv[1]);
   opt.create_if_missing = 1;
@@ -216,8 +219,14 @@ int main(int argc, char **argv) {
     cache = ldb_lru_create(16 * 1024); opt.block_cache = cache;
     opt.max_open_files = 20;
   }
+  if (scenario == 5) opt.compression = LDB_SNAPPY_COMPRESSION;
   rc = ldb_open(path, &opt, &db);
   if (rc != LDB_OK) { printf("K10 open failed: %s\n", ldb_strerror(rc)); return 2; }
+  if (scenario == 5) {
+    char path2[1100]; sprintf(path2, "%s/db2", argv[1]);
+    rc = ldb_open(path2, &opt, &db2);
+    if (rc != LDB_OK) { printf("K10 open (second handle) failed: %s\n", ldb_strerror(rc)); return 2; }
+  }
   { /* some data before the threads start, and the shared snapshot */
     rng_t r; char kb[32], *vb = malloc(8192); r.s = seed;
     for (i = 0; i < 300; i++) {
@@ -229,7 +238,7 @@ int main(int argc, char **argv) {
   memset(ws, 0, sizeof(ws));
   ws[0].shared_snap = ldb_snapshot(db);
   for (i = 0; i < nthreads; i++) {
-    ws[i].db = db; ws[i].shared_snap = ws[0].shared_snap; ws[i].dir = argv[1]; ws[i].seed = seed;
+    ws[i].db = (db2 != NULL && (i & 1)) ? db2 : db; ws[i].shared_snap = (db2 != NULL && (i & 1)) ? NULL : ws[0].shared_snap; ws[i].dir = argv[1]; ws[i].seed = seed;
     ws[i].scenario = scenario; ws[i].tid = i; ws[i].nops = nops;
     pthread_create(&th[i], NULL, worker, &ws[i]);
   }
@@ -242,6 +251,7 @@ int main(int argc, char **argv) {
     ldb_free(v);
   }
   ldb_close(db);
+  if (db2 != NULL) ldb_close(db2);
   for (i = 0; i < nthreads; i++) {
     g += ws[i].gets; h += ws[i].hits; wr += ws[i].writes; it += ws[i].iters; st += ws[i].steps;
     sn += ws[i].snaps; cp += ws[i].compacts; pr += ws[i].props; bk += ws[i].backups; bad += ws[i].bad;
